@@ -28,12 +28,14 @@ Spec == Init /\ [][Next]_vars
 
 VarIdx(vs, n) == {k \in 1..Len(vs) : vs[k].n = n /\ vs[k].kind = "sym"}
 U0 == [n \in DOMAIN x.s |-> LET ks == VarIdx(Pg.vars, n) IN IF ks = {} THEN NoVal ELSE PickOf(Pg.vars, i, CHOOSE k \in ks : TRUE)]
-P0 == [c \in DOMAIN x.c |-> NoVal]
+VarIdxC(vs, c) == {k \in 1..Len(vs) : vs[k].n = c /\ vs[k].kind = "choice"}
+P0 == [c \in DOMAIN x.c |-> LET ks == VarIdxC(Pg.vars, c) IN IF ks = {} THEN NoVal ELSE PickOf(Pg.vars, i, CHOOSE k \in ks : TRUE)]
+PNone == [c \in DOMAIN x.c |-> NoVal]
 NoU == [n \in DOMAIN x.s |-> NoVal]
 
 \* once per program (i = 1): the specification's fold against the real one
 FoldConforms ==
-  LET A0 == Eval(x, Pg.ord, NoU, P0)
+  LET A0 == Eval(x, Pg.ord, NoU, PNone)
       Tg == ToSet(Pg.targets)
   IN \A k \in 1..Len(Pg.pairs) :
        LET m == Fold(x, A0, Tg, Pg.pairs[k].orig, Fuel) IN
@@ -41,7 +43,7 @@ FoldConforms ==
 
 Check ==
   LET A == Eval(x, Pg.ord, U0, P0)
-      A0 == Eval(x, Pg.ord, NoU, P0)
+      A0 == Eval(x, Pg.ord, NoU, PNone)
       Tg == ToSet(Pg.targets) IN
   /\ \A k \in 1..Len(Pg.pairs) :
        /\ (EvalE(x, A, Pg.pairs[k].orig) = EvalE(x, A, Pg.pairs[k].min)
